@@ -209,86 +209,188 @@ type LockCtx struct {
 
 const maxCtx = 48
 
-// Contexts returns the calling contexts of fn.
-func (e *Engine) Contexts(fn *ssa.Function) []LockCtx {
-	if e.ctxCache == nil {
-		e.ctxCache = map[*ssa.Function][]LockCtx{}
-		e.ctxBusy = map[*ssa.Function]bool{}
+type ctxEntry struct {
+	held LockSet
+	// provenance (first discovery) for the witness chain
+	from    *ssa.Function
+	fromKey string
+	site    string
+	csite   ssa.CallInstruction
+	isGo    bool
+}
+
+type ctxState struct {
+	sets      map[*ssa.Function]map[string]*ctxEntry
+	order     map[*ssa.Function][]string
+	collapsed map[*ssa.Function]bool
+}
+
+// computeContexts: forward worklist fixpoint over the call graph. Roots get
+// the empty lockset: public API entries, main/init, callees of `go`
+// statements, and non-module functions nobody calls. A module function that
+// nobody calls in the non-test program is dead and gets no context.
+func (e *Engine) computeContexts() *ctxState {
+	st := &ctxState{sets: map[*ssa.Function]map[string]*ctxEntry{}, order: map[*ssa.Function][]string{}, collapsed: map[*ssa.Function]bool{}}
+	var work []*ssa.Function
+	inWork := map[*ssa.Function]bool{}
+	push := func(f *ssa.Function) {
+		if !inWork[f] {
+			inWork[f] = true
+			work = append(work, f)
+		}
 	}
-	if c, ok := e.ctxCache[fn]; ok {
-		return c
-	}
-	if e.ctxBusy[fn] {
-		return nil // recursion: contributes nothing new
-	}
-	e.ctxBusy[fn] = true
-	defer delete(e.ctxBusy, fn)
-	var out []LockCtx
-	seen := map[string]bool{}
-	add := func(c LockCtx) {
-		k := c.Held.key()
-		if seen[k] {
+	add := func(g *ssa.Function, ce *ctxEntry) {
+		m := st.sets[g]
+		if m == nil {
+			m = map[string]*ctxEntry{}
+			st.sets[g] = m
+		}
+		if st.collapsed[g] {
+			// single entry = intersection of everything seen
+			cur := m[st.order[g][0]]
+			ni := intersect(cur.held, ce.held)
+			if ni.key() != cur.held.key() {
+				delete(m, st.order[g][0])
+				ne := &ctxEntry{held: ni, site: "(more than 48 contexts collapsed to their intersection)"}
+				k := "collapsed:" + ni.key()
+				m[k] = ne
+				st.order[g] = []string{k}
+				push(g)
+			}
 			return
 		}
-		seen[k] = true
-		out = append(out, c)
+		k := ce.held.key()
+		if _, ok := m[k]; ok {
+			return
+		}
+		m[k] = ce
+		st.order[g] = append(st.order[g], k)
+		if len(m) > maxCtx {
+			inter := ce.held.clone()
+			for _, x := range m {
+				inter = intersect(inter, x.held)
+			}
+			nk := "collapsed:" + inter.key()
+			st.sets[g] = map[string]*ctxEntry{nk: {held: inter, site: "(more than 48 contexts collapsed to their intersection)"}}
+			st.order[g] = []string{nk}
+			st.collapsed[g] = true
+		}
+		push(g)
 	}
-	n := e.CG.Nodes[fn]
-	nCallers := 0
-	if n != nil {
+	// deterministic order of functions
+	var fns []*ssa.Function
+	for f := range e.CG.Nodes {
+		if f != nil {
+			fns = append(fns, f)
+		}
+	}
+	sort.Slice(fns, func(i, j int) bool { return fns[i].String() < fns[j].String() })
+	for _, f := range fns {
+		n := e.CG.Nodes[f]
+		callers := 0
 		for _, ed := range n.In {
 			if ed.Site == nil {
 				continue
 			}
-			caller := ed.Caller.Func
-			if p := fnPkg(caller); p != nil && inModule(p) && !scopePkg(p.Path()) {
-				continue // test helpers / fuzz drivers are not the program
+			if p := fnPkg(ed.Caller.Func); p != nil && inModule(p) && !scopePkg(p.Path()) {
+				continue
 			}
+			callers++
+		}
+		p := fnPkg(f)
+		mod := p != nil && inModule(p)
+		root := false
+		switch {
+		case mod && !scopePkg(p.Path()):
+			root = false // test helpers, examples: not the program
+		case e.isPublicEntry(f):
+			root = true
+		case callers == 0 && (!mod || f.Name() == "main" || strings.HasPrefix(f.Name(), "init")):
+			root = true
+		}
+		if root {
+			add(f, &ctxEntry{held: LockSet{}, site: "entry " + fname(f)})
+		}
+	}
+	for len(work) > 0 {
+		f := work[0]
+		work = work[1:]
+		inWork[f] = false
+		n := e.CG.Nodes[f]
+		if n == nil {
+			continue
+		}
+		p := fnPkg(f)
+		mod := p != nil && inModule(p)
+		var lf *lockFacts
+		if mod && len(f.Blocks) > 0 {
+			lf = e.localLocks(f)
+		}
+		keys := append([]string{}, st.order[f]...)
+		for _, ed := range n.Out {
+			if ed.Site == nil {
+				continue
+			}
+			g := ed.Callee.Func
 			if _, isGo := ed.Site.(*ssa.Go); isGo {
-				nCallers++
-				add(LockCtx{Held: LockSet{}, Chain: []string{"go " + fname(fn) + " at " + e.ipos(ed.Site)}})
+				add(g, &ctxEntry{held: LockSet{}, csite: ed.Site, isGo: true})
 				continue
 			}
-			if _, isDefer := ed.Site.(*ssa.Defer); isDefer {
-				// deferred call runs at exit with the locks still held at
-				// the defer point minus later unlocks; approximate by the set
-				// at function exit = unknown: use the lockset at the defer
-				// statement intersected with nothing released => conservative: empty
-				nCallers++
-				for _, cc := range e.Contexts(caller) {
-					add(LockCtx{Held: cc.Held.clone(), Chain: append(append([]string{}, cc.Chain...), "defer in "+fname(caller)+" at "+e.ipos(ed.Site))})
-				}
-				continue
-			}
-			nCallers++
 			local := LockSet{}
-			if len(caller.Blocks) > 0 {
-				lf := e.localLocks(caller)
-				if l, ok := lf.at[ed.Site.(ssa.Instruction)]; ok {
-					local = l
+			if lf != nil {
+				if _, isDefer := ed.Site.(*ssa.Defer); !isDefer {
+					if l, ok := lf.at[ed.Site.(ssa.Instruction)]; ok {
+						local = l
+					}
 				}
 			}
-			ccs := e.Contexts(caller) // empty: caller is dead or is the recursion in progress
-			for _, cc := range ccs {
-				add(LockCtx{Held: union(cc.Held, local), Chain: append(append([]string{}, cc.Chain...), fname(caller)+" at "+e.ipos(ed.Site))})
+			for _, k := range keys {
+				ce := st.sets[f][k]
+				if ce == nil {
+					continue
+				}
+				h := ce.held
+				if len(local) > 0 {
+					h = union(ce.held, local)
+				}
+				add(g, &ctxEntry{held: h, from: f, fromKey: k, csite: ed.Site})
 			}
 		}
 	}
-	// public API of non-internal packages can be entered by the user with no lock
-	// a function nobody calls in the non-test program is dead (test-only
-	// helper, unused promoted-method wrapper): it has no context at all.
-	if e.isPublicEntry(fn) || (nCallers == 0 && (fn.Name() == "main" || strings.HasPrefix(fn.Name(), "init"))) {
-		add(LockCtx{Held: LockSet{}, Chain: []string{"entry " + fname(fn)}})
+	return st
+}
+
+// Contexts returns the calling contexts of fn.
+func (e *Engine) Contexts(fn *ssa.Function) []LockCtx {
+	if e.ctx == nil {
+		e.ctx = e.computeContexts()
 	}
-	if len(out) > maxCtx {
-		// collapse to the intersection (sound: fewer locks assumed)
-		inter := out[0].Held.clone()
-		for _, c := range out[1:] {
-			inter = intersect(inter, c.Held)
+	var out []LockCtx
+	for _, k := range e.ctx.order[fn] {
+		ce := e.ctx.sets[fn][k]
+		if ce == nil {
+			continue
 		}
-		out = []LockCtx{{Held: inter, Chain: []string{"(more than 48 contexts collapsed to their intersection)"}}}
+		// rebuild the witness chain
+		var chain []string
+		cur := ce
+		for i := 0; i < 40 && cur != nil; i++ {
+			site := cur.site
+			if cur.csite != nil {
+				if cur.isGo {
+					site = "go statement at " + e.ipos(cur.csite)
+				} else {
+					site = fname(cur.csite.Parent()) + " at " + e.ipos(cur.csite)
+				}
+			}
+			chain = append([]string{site}, chain...)
+			if cur.from == nil {
+				break
+			}
+			cur = e.ctx.sets[cur.from][cur.fromKey]
+		}
+		out = append(out, LockCtx{Held: ce.held, Chain: chain})
 	}
-	e.ctxCache[fn] = out
 	return out
 }
 
